@@ -19,8 +19,23 @@ LEVEL = "exploration"
 def make_case(seed: int, tier: str, prop: str, opts=None) -> Dict[str, Any]:
     opts = opts or {}
     force = dict(opts.get("force") or {})
-    sc = gen.gen_core(seed, tier, force=force or None,
-                      transport_mix=opts.get("transport_mix", "mixed"))
+    fam = h64(seed, "family") % 20
+    if prop == "C05" and fam < 2 and not force:
+        # completion also for same-time loops around the bound ...
+        sc = gen.gen_loop(seed, tier)
+    elif prop == "C05" and fam < 4 and not force:
+        # ... and for plants with async_requests agents (legal requests only)
+        sc = gen.gen_async(seed, tier)
+        sc.pop("illegal_async", None)
+        for s_ in sc["sims"]:
+            if s_["beh"].get("async_calls"):
+                s_["beh"]["async_calls"] = [c for c in s_["beh"]["async_calls"] if not c.get("illegal")]
+        for c in sc["conns"]:
+            if c.get("async") is False:
+                c["async"] = True
+    else:
+        sc = gen.gen_core(seed, tier, force=force or None,
+                          transport_mix=opts.get("transport_mix", "mixed"))
     if prop == "C10":
         sc["config"]["lazy"] = True
     k = opts.get("schedules", 3 if tier == "quick" else 6)
